@@ -148,9 +148,11 @@ TRUSTED_BASE = [
     "no axioms: Print Assumptions reports 'Closed under the global context' for every C14 theorem",
     "harness/tables/devs.py (T1): Priority values, the SimulationEvent.__lt__ tuple, the priority of model.step",
     "harness/props/devs_common.py driver+observer+Gallina printer (T2, differential testing, not a proof)",
-    "Model/Devs.v is a hand transcription of eventlist.py/simulator.py; the heap is abstracted as a list ordered by __lt__ - "
-    "justified by Model/Heap.v (transcription of CPython heapq, tied to the real heapq by fixed example arrays only, not by T2) and the "
-    "theorem C14_heap_refines_sorted_list; weak references die when the holder object is dropped (CPython refcounting)",
+    "Model/Devs.v is a hand transcription of eventlist.py/simulator.py; the heap is abstracted as a list ordered by __lt__ - justified by "
+    "Model/Heap.v + Model/DevsHeap.v (CPython heapq transcribed; the simulator on the heap array) and the theorems "
+    "C14_heap_refines_sorted_list / C14_heap_simulator_refines; the heap transcription is tied to the real heapq by fixed example arrays and by "
+    "the optional run VERIF_HEAPQ_TIE=1 ./check C14 (array order of EventList._events compared after every operation), not by the default run",
+    "weak references die when the holder object is dropped (CPython refcounting) - modelled, exercised by T2",
     "Uint63 primitive hash only in scratch Cases files, never under a theorem",
 ]
 ASSUMPTIONS = [
@@ -169,8 +171,8 @@ LEVEL_TEXT = ("Machine-checked Coq theorems over a Gallina transcription of Even
               "refines the ordered list used by the model. T1 ties key/priorities to the "
               "source, T2 runs the model against the implementation on every history, and an independent oracle states the property "
               "on the implementation's own trace.")
-LEVEL_NOTE = ("Theorems are about the model; the heapq transcription (Model/Heap.v) is proved to refine the ordered list the model uses, "
-              "but is itself tied to CPython only by example arrays. "
+LEVEL_NOTE = ("Theorems are about the model; the heapq transcription (Model/Heap.v, Model/DevsHeap.v) is proved to refine the ordered list the "
+              "model uses and is compared with CPython (array order included) by the optional VERIF_HEAPQ_TIE=1 run. "
               "Trusted: Coq kernel, the T1 extractors, the driver/observer. No axioms.")
 TECHNIQUE = "Coq proof (invariants by induction over histories and fuel, closed under global context) + source-regenerated tables + vm_compute correspondence"
 DESIGN_REF = "DESIGN.md section 4, C14"
